@@ -381,17 +381,105 @@ def fam_nofetch(arg):
     return acc.result()
 
 
+# ---------------------------------------------------------------- the command line interface: several scripts in one run
+
+CLI_ITEMS = [
+    ('file', 'lib/setup.bare', ['setup', 'lib-extra']),
+    ('file', 'top.bare', ['top', 'cwd-extra']),
+    ('code', "include 'extra.bare'", ['cwd-extra']),
+    ('code', "systemLog('inline')", ['inline']),
+    ('file', 'lib/sys.bare', ['sys', 'pager-ok']),
+]
+CLI_FILES = {
+    'extra.bare': "systemLog('cwd-extra')\n",
+    'lib/extra.bare': "systemLog('lib-extra')\n",
+    'lib/setup.bare': "systemLog('setup')\ninclude 'extra.bare'\n",
+    'top.bare': "systemLog('top')\ninclude 'extra.bare'\n",
+    # a system include (resolved against the package's own include directory), then nothing relative
+    'lib/sys.bare': "systemLog('sys')\ninclude <args.bare>\nsystemLog(if(systemType(argsParse) == 'function', 'pager-ok', 'missing'))\n",
+}
+
+
+def check_cli(case, acc):
+    """bare_script.bare.main with a sequence of file / inline scripts: every script's includes resolve against that
+    script's own location (inline code: as written, i.e. the working directory), whatever ran before it."""
+    import contextlib  # pylint: disable=import-outside-toplevel
+    import io  # pylint: disable=import-outside-toplevel
+    import os  # pylint: disable=import-outside-toplevel
+    import shutil  # pylint: disable=import-outside-toplevel
+    import tempfile  # pylint: disable=import-outside-toplevel
+    load_impl()
+    from bare_script import bare  # pylint: disable=import-outside-toplevel,import-error
+    seq = case['seq']
+    argv = []
+    want = []
+    for i in seq:
+        kind, value, logs = CLI_ITEMS[i]
+        argv += ['-c', value] if kind == 'code' else [value]
+        want += logs
+    tmp = tempfile.mkdtemp(prefix='bsv-cli-', dir='/var/tmp')
+    cwd = os.getcwd()
+    acc.evals += 1
+    acc.states += 1
+    acc.transitions += len(seq)
+    acc.traces += 1
+    try:
+        for rel, text in CLI_FILES.items():
+            path = os.path.join(tmp, rel)
+            os.makedirs(os.path.dirname(path), exist_ok=True)
+            with open(path, 'w', encoding='utf-8') as fh:
+                fh.write(text)
+        os.chdir(tmp)
+        out = io.StringIO()
+        code = None
+        with contextlib.redirect_stdout(out):
+            try:
+                bare.main(argv)
+            except SystemExit as exc:
+                code = exc.code
+        got = [ln for ln in out.getvalue().splitlines() if ln]
+    except Exception as exc:  # pylint: disable=broad-exception-caught
+        got = ['EXCEPTION ' + type(exc).__name__ + ': ' + str(exc)[:200]]
+        code = 'exception'
+    finally:
+        os.chdir(cwd)
+        shutil.rmtree(tmp, ignore_errors=True)
+    c2 = dict(case, argv=argv)
+    if got != want or code not in (0, None):
+        acc.violation(c2, {'stdout': want, 'exit': 0}, {'stdout': got, 'exit': code}, 'the command line ran the scripts with includes resolved against the wrong location')
+    if len(set(seq)) > 1:
+        acc.nontrivial += 1
+    acc.outcome(tuple(got))
+
+
+def fam_cli(arg):
+    acc = Acc('cli')
+    for seq in arg:
+        acc.cases += 1
+        check_cli({'seq': list(seq)}, acc)
+    acc.sample({'argv_items': [CLI_ITEMS[i][1] for i in arg[len(arg) // 2]]})
+    return acc.result()
+
+
 def families(tier):
     load_impl()
     cs = cases(tier)
+    maxseq = 3 if tier == 'quick' else 4
+    def contiguous_files(seq):
+        # argparse takes the positional file arguments as ONE block: file scripts must be adjacent on the command line
+        kinds = [CLI_ITEMS[i][0] for i in seq]
+        idx = [k for k, kd in enumerate(kinds) if kd == 'file']
+        return not idx or idx[-1] - idx[0] + 1 == len(idx)
+    cli = [seq for n in range(1, maxseq + 1) for seq in itertools.product(range(len(CLI_ITEMS)), repeat=n) if contiguous_files(seq)]
     nf = [{'root': r, 'form': f} for r in range(len(ROOTS)) for f in FORMS]
     return [
         Family('trees', fam_trees, split(cs, 64), 'include trees per mc/props/C17.plan(tier): chains with all six reference forms, fan-out 2 trees, four root configurations, fault answers on every fetch', expected=len(cs)),
+        Family('cli', fam_cli, split(cli, 16), f'bare_script.bare.main with every sequence of <= {maxseq} scripts over {{a file in a sub-directory, a file in the working directory, inline code with an include, inline code, a file with a system include}} on real temporary files', expected=len(cli)),
         Family('nofetch', fam_nofetch, [nf], 'no fetchFn: every reference form x root configuration', expected=len(nf)),
     ]
 
 
-_CHECKS = {'trees': check_tree, 'nofetch': check_nofetch}
+_CHECKS = {'cli': check_cli, 'trees': check_tree, 'nofetch': check_nofetch}
 
 
 def replay(family, case):
